@@ -1,5 +1,5 @@
 #!/venv/bin/python
-"""Reproductions of the genuine defects D1..D23 against the real code in /repo.
+"""Reproductions of the genuine defects D1..D24 against the real code in /repo.
 
 usage: findings/repro.py [D1 D2 ...]     exit 1 if any selected defect is present.
 Each function returns None when the behaviour is right, or a string describing the failing
@@ -418,7 +418,39 @@ def D23():
                 'transport connection was still open after %.0f s (the handler\'s file object keeps the socket alive)' % took)
 
 
-ALL = ['D%d' % i for i in range(1, 24)]
+def D24():
+    # a healthy, fast peer on loopback TCP asks a real entity for 100 matches.  The provider sends one PDU per 50 ms poll
+    # (it waits for the network before it looks at its own output queue), so the answer takes ~10 s to leave; the entity's
+    # idle timeout (3 s here; with the default of 15 s the same happens from ~160 matches, or with a C-STORE above ~4.8 MB
+    # at 16 KiB PDUs) runs meanwhile and the association is cut with the answer half sent
+    import pydicom
+    s2.uninstall()
+    n = 100
+
+    class Srv(aem.AE):
+        def on_receive_find(self, context, ds):
+            def gen():
+                for j in range(n):
+                    d = pydicom.Dataset(); d.PatientID = 'P%d' % j
+                    yield d, statuses.C_FIND_PENDING
+            return gen()
+    srv = Srv('SRV', 0)
+    srv.timeout = 3
+    srv.add_scp(sc.qr_find_scp)
+    got, exc = [], None
+    with srv:
+        q = pydicom.Dataset(); q.PatientID = '*'; q.QueryRetrieveLevel = 'PATIENT'
+        try:
+            for d, st in pynetdicom2.c_find({'aet': 'SRV', 'address': '127.0.0.1', 'port': srv.server_address[1]}, 'CLI', q):
+                got.append(int(st))
+        except Exception as e:  # pylint: disable=broad-except
+            exc = e
+    if len(got) != n + 1 or exc is not None:
+        return ('C-FIND with %d matches against a real entity, healthy peer: %d of %d responses arrived, then %r'
+                % (n, len(got), n + 1, exc))
+
+
+ALL = ['D%d' % i for i in range(1, 25)]
 
 if __name__ == '__main__':
     sel = sys.argv[1:] or ALL
